@@ -418,7 +418,10 @@ class ExprMixin(object):
             if isinstance(vs, Raised):
                 yield st1, vs
                 continue
-            yield self.new_list(st1, vs)
+            st2, lst = self.new_list(st1, vs)
+            st2 = st2.copy()
+            st2.ghost['lshadow:%s' % lst.term] = tuple(vs)     # known shape of a list display (until it is mutated)
+            yield st2, lst
 
     def elem_type_of(self, vs):
         tys = set()
@@ -921,7 +924,15 @@ class ExprMixin(object):
         if isinstance(op, ast.Mult) and a.is_py and isinstance(a.py, int) and not b.is_py and b.ty.kind == 'list':
             a, b = b, a
         if isinstance(op, ast.Mult) and b.is_py and isinstance(b.py, int) and not a.is_py and a.ty.kind == 'list':
-            raise OutOfReach('list repetition')
+            sh = st.ghost.get('lshadow:%s' % a.term)
+            if sh is None:
+                raise OutOfReach('repetition of a list of unknown shape')
+            items = list(sh) * b.py
+            st2, lst = self.new_list(st, items)
+            st2 = st2.copy()
+            st2.ghost['lshadow:%s' % lst.term] = tuple(items)
+            yield st2, lst
+            return
         raise OutOfReach('binary op %s on %r, %r' % (type(op).__name__, a, b))
 
     def format_uf(self, st, template, args):
@@ -1061,7 +1072,10 @@ class ExprMixin(object):
                 try:
                     yield st, mk(v[idx.py])
                 except IndexError:
-                    yield self.raise_(st, IndexError, 'index out of range')
+                    if self.spec_mode:
+                        yield st, NONE_SV       # guarded by the clause's own antecedent (evaluated eagerly)
+                    else:
+                        yield self.raise_(st, IndexError, 'index out of range')
                 return
             if isinstance(v, tuple) and not idx.is_py:
                 i = self.int_of(idx)
@@ -1104,7 +1118,10 @@ class ExprMixin(object):
                         yield self.raise_(st1, KeyError, 'key')
                 return
             elif v is None:
-                yield self.raise_(st, TypeError, "'NoneType' object is not subscriptable")
+                if self.spec_mode:
+                    yield st, NONE_SV
+                else:
+                    yield self.raise_(st, TypeError, "'NoneType' object is not subscriptable")
                 return
             else:
                 raise OutOfReach('subscript on python object %r' % (v,))
